@@ -12,12 +12,9 @@ def groups(tier):
     G.append(Group('finalize.padding', 'sha256', 'C08/finalize.c', enforce='crypto__Sha256__finalize', replace=[T],
                    unwind=65, backend=['sat'], kind='constant-unwind', bound='fill/length loops <= 64 iterations',
                    clause='finalize: blocks handed to transform are the FIPS padding; digest is big-endian state'))
-    lens = [0, 1, 55, 56, 63, 64, 65, 119, 120, 128] if tier == 'quick' else list(range(0, 131))
-    for n in lens:
-        for sp in sorted({0, 1, n // 2, 63, n - 1, n} & set(range(0, n + 1))):
-            G.append(Group(f'e2e.len{n}.split{sp}', 'sha256', 'C08/e2e.c', defines=[f'LEN={n}', f'SPLIT={sp}'], unwind=130, checks=[],
-                           backend=['cvc5'], timeout=300, kind='bounded', bound=f'message length {n}, split at {sp} (contents symbolic)',
-                           clause='end-to-end digest through the public API equals FIPS 180-4 for this length/split'))
+    # The bounded end-to-end groups (concrete length/split, symbolic contents, digest through the public API against the FIPS
+    # reference) were removed: only length 0 is decided; every length >= 1 exceeds 300 s / 12 GB on cvc5 and does not finish
+    # on the SAT back ends either (measured, DESIGN.md section 7).  They produced UNDECIDED, never a verdict.
     HS = ['crypto__Sha256__Sha256__ctor', 'crypto__Sha256__update', 'crypto__Sha256__finalize', 'crypto__Sha256__digest']
     G.append(Group('hmac.compute', 'hmac', 'C08/hmac_rfc2104.c', entry='h_compute', replace=HS, unwind=66, backend=['sat'], kind='constant-unwind',
                    bound='key-block loops of 64 iterations; key and data lengths symbolic and unbounded',
